@@ -7,15 +7,16 @@
      key is its own name / identifier;
      the nets with the same key form a [group]; the cables of the cell are the groups in order of
      first appearance ([uniq]); a scalar group is one net = one one-wire cable holding its pins;
-     a bus group is ONE array cable whose wire of bit i holds the pins of the net of bit i, empty
+     a bus group is ONE array cable whose wire of bit i holds the pins of the net(s) of bit i
+     (a bit given by several nets holds the pins of all of them, in file order: [gather]), empty
      wires in the gaps, lower index = least bit, width = greatest - least + 1 ([cab_inv] of
      Proofs/EdifCableProofs.v states exactly that for the bits in file order).
 
    [nets_ok] is the hypothesis under which the reader implements this meaning: two nets have the
    same key name iff they have the same key identifier (case-insensitively), and nets sharing a
-   key are bits with DIFFERENT indices. It excludes exactly the shapes of the open findings
-   C05-K11 (a bit given twice), C05-K13 (scalar net named like a bus of the cell) and C05-K10
-   (short identifier owned by another net). No proofs in this file. *)
+   key are bits (of any indices: since the repair of K11 a bit may be given twice). It excludes
+   exactly the shapes of the open findings C05-K13 (scalar net named like a bus of the cell) and
+   C05-K10 (short identifier owned by another net). No proofs in this file. *)
 From Coq Require Import List NArith Bool.
 From SV Require Import Base.Base Fmt.EdifName Fmt.EdifCable Fmt.EdifBus Fmt.EdifNets Proofs.EdifCableProofs.
 Import ListNotations.
@@ -37,14 +38,14 @@ Definition key_ident nt : str :=
 
 Definition compat (a b : net P) : Prop :=
   (key_name a = key_name b <-> lower (key_ident a) = lower (key_ident b)) /\
-  (key_name a = key_name b -> exists i j, n_index a = Some i /\ n_index b = Some j /\ i <> j).
+  (key_name a = key_name b -> exists i j, n_index a = Some i /\ n_index b = Some j).
 
 Definition nets_ok nets : Prop := ForallOrdPairs compat nets.
 
 Definition compatb (a b : net P) : bool :=
   Bool.eqb (str_eqb (key_name a) (key_name b)) (str_eqb (lower (key_ident a)) (lower (key_ident b))) &&
   (negb (str_eqb (key_name a) (key_name b)) ||
-   match n_index a, n_index b with Some i, Some j => negb (N.eqb i j) | _, _ => false end).
+   match n_index a, n_index b with Some _, Some _ => true | _, _ => false end).
 
 Fixpoint nets_okb nets : bool :=
   match nets with
@@ -62,8 +63,10 @@ Definition uniq (l : list str) : list str := uniq_from [] l.
 
 Definition group (k : str) nets : list (net P) := filter (fun nt => str_eqb (key_name nt) k) nets.
 
+(* the bits a group gives: only nets that ARE bits contribute (a scalar net sharing the key of a bus
+   - finding C05-K13 - is no bit of it: a cable holding its pins on some wire is not the meaning) *)
 Definition bits_of (grp : list (net P)) : list (N * list P) :=
-  map (fun nt => (match n_index nt with Some i => i | None => 0%N end, n_pins nt)) grp.
+  flat_map (fun nt => match n_index nt with Some i => [(i, n_pins nt)] | None => [] end) grp.
 
 Definition denote_conn nets (s : list (entry P)) : Prop :=
   map (@e_name P) s = uniq (map key_name nets) /\
